@@ -70,6 +70,11 @@ def make_mdp(case, explicit_lists=False, spec=None):
     g = fl(m["gamma"])
     if case.get("gamma_as_int") and g == int(g):
         g = int(g)
+    # absorbing flags as the user's is_absorbing returns them: bool, Python int, np.int64, np.bool_
+    import numpy as np
+    ft = case.get("flag_type")
+    flag = {"int": int, "np.int64": np.int64, "np.bool_": np.bool_}.get(ft, bool)
+    absorbing = [flag(x) for x in absorbing]
     mdp = QuickTabularMDP(
         next_state_dist=lambda s, a: trans[(IS[s], IA[a])],
         reward=lambda s, a, ns: rew.get((IS[s], IA[a], IS[ns]), 0.0),
@@ -81,7 +86,21 @@ def make_mdp(case, explicit_lists=False, spec=None):
     if explicit_lists:
         mdp._state_list = tuple(LS)
         mdp._action_list = tuple(LA)
-    mdp._c02_inputs = {"actions": actions, "trans": trans, "rew": rew}
+    inputs = {"actions": actions, "trans": trans, "rew": rew}
+    if case.get("mdp_form") == "matrices":
+        # the same problem handed over in matrix form (TabularMarkovDecisionProcess.from_matrices), with the flag
+        # arrays typed as the case says (0/1 integers, floats, bools)
+        from msdm.core.mdp.tabularmdp import TabularMarkovDecisionProcess
+        sl0, al0 = list(mdp.state_list), list(mdp.action_list)
+        dt = {"int": int, "np.int64": np.int64, "np.bool_": bool}.get(ft, float if case.get("matrix_flags_float") else bool)
+        mats = {"transition_matrix": np.array(mdp.transition_matrix), "reward_matrix": np.array(mdp.reward_matrix),
+                "action_matrix": np.array(mdp.action_matrix).astype(dt if dt is not bool else float),
+                "initial_state_vec": np.array(mdp.initial_state_vec),
+                "absorbing_state_vec": np.array([absorbing[IS[x]] for x in sl0]).astype(dt)}
+        mdp = TabularMarkovDecisionProcess.from_matrices(state_list=sl0, action_list=al0, discount_rate=g, **mats)
+        inputs.update(mats)
+        inputs["matrix_state_list"], inputs["matrix_action_list"] = sl0, al0
+    mdp._c02_inputs = inputs
     return mdp, LS, LA, IS, IA
 
 
@@ -112,6 +131,8 @@ def make_policy(pol, sl, al, LS, LA, IS, IA):
     from msdm.core.mdp.tabularpolicy import TabularPolicy
     from msdm.core.mdp.policy import FunctionalPolicy
     rows = {int(s): [(int(a), fl(p)) for a, p in r] for s, r in pol["rows"].items()}
+    for s, r in (pol.get("float_rows") or {}).items():
+        rows[int(s)] = [(int(a), float.fromhex(h)) for a, h in r]
     info = {}
     extra = pol.get("extra_action_labels", [])          # error path: actions the MDP does not have
     pal = [a for a in pol["action_order"] if a in al]
@@ -235,7 +256,7 @@ def one(case, pl):
             ev["pol"] = step["other_policy"]
             evals.append(ev)
         else:
-            m2 = make_mdp(case)[0]
+            m2 = make_mdp(case, explicit_lists=case.get("explicit_lists", False))[0]
             m2._state_list = tuple(LS[x] for x in sorted(sl, key=lambda x: step["skeys"][x]))
             m2._action_list = tuple(LA[x] for x in sorted(al, key=lambda x: step["akeys"][x]))
             evals.append(evaluate(policy, m2))
